@@ -153,6 +153,19 @@ let () =
       | _ -> "ERR") toks in
     String.concat " " out)
 
+let () =
+  let opt_hex = function "-" -> None | h -> Some (bytes_of_hex h) in
+  let show = function None -> "none" | Some l -> hex_of_bytes l in
+  reg "names" (fun a -> match a with [mode; fmt; custom; name] ->
+      let f = match fmt with "xz" -> F_XZ | "lzma" -> F_LZMA | _ -> F_RAW in
+      if mode = "c" then show (compressed_name f (opt_hex custom) (bytes_of_hex name))
+      else show (uncompressed_name (fmt = "raw") (opt_hex custom) (bytes_of_hex name))
+    | _ -> "ERR");
+  reg "destmode" (fun a -> match a with [m; g] -> string_of_int (int_of_n (dest_mode (n_of_int (int_of_string m)) (g = "1"))) | _ -> "ERR");
+  reg "exitstatus" (fun a -> match a with [nw; ev] ->
+      string_of_int (int_of_n (final_status (List.map (fun c -> n_of_int (Char.code c - 48)) (List.init (String.length ev) (String.get ev))) (nw = "1")))
+    | [nw] -> string_of_int (int_of_n (final_status [] (nw = "1"))) | _ -> "ERR")
+
 (* ---- main loop (keep last) ---- *)
 let () =
   try
